@@ -49,6 +49,9 @@ CaseRec == LET r == Req IN
            [prog |-> prog, syms |-> syms, diags |-> diags, skel |-> out[1], panic |-> panicked,
             need |-> r.need, undef |-> r.undef, redecl |-> r.redecl, nsyms |-> r.ord]
 Emit == Complete => PrintT(<<"CASE", ToJson(CaseRec)>>)
+(* in simulation the requirement is evaluated on the programs that are printed (Run re-reads the whole program, so checking it *)
+(* in every intermediate state makes long walks quadratic); the exhaustive configurations check it in every state               *)
+MSatisfiesR_Long == (Complete /\ Len(prog) >= MaxStmts - 1) => MSatisfiesR
 (* in simulation mode only long programs are printed *)
 EmitLong == (Complete /\ Len(prog) >= MaxStmts - 1) => PrintT(<<"CASE", ToJson(CaseRec)>>)
 (* the exhaustive (BFS) configurations use a smaller set of modifier sequences; the simulation uses all of them *)
